@@ -247,6 +247,8 @@ package otr3
 //@   pure
 //@   ensures ok ==> within(resultData, data)
 //@   ensures [C14.parse.fields] ok ==> countsep(bytes(data), 44) == 3
+//@   ghostlocal fragNumsOK(nil) = (e1 == nil && e2 == nil)
+//@   ensures [C14.parse.ok.iff,C04.parse.ok.iff] (countsep(bytes(data), 44) == 3 && fragNumsOK(nil)) ==> ok
 //@   ensures !ok ==> true
 
 //@ func (*Conversation).receiveFragment
@@ -781,7 +783,7 @@ package otr3
 
 //@ func (*Conversation).calcAKEKeys
 //@   requires c != nil && c.ake != nil && c.version != nil && s != nil
-//@   modifies c.ssid, c.ake.revealKey.*, c.ake.sigKey.*
+//@   modifies c.ssid, c.ake.revealKey.*, c.ake.sigKey.*, secbs(nil)
 //@   ensures [C10.ake.keys.len] len(c.ake.revealKey.c) == 16 && len(c.ake.sigKey.c) == 16 && len(c.ake.revealKey.m1) == 32 && len(c.ake.revealKey.m2) == 32 && len(c.ake.sigKey.m1) == 32 && len(c.ake.sigKey.m2) == 32
 //@   ensures nonglobal(c.ake.revealKey.c) && nonglobal(c.ake.sigKey.c) && nonglobal(c.ake.revealKey.m1) && nonglobal(c.ake.revealKey.m2) && nonglobal(c.ake.sigKey.m1) && nonglobal(c.ake.sigKey.m2)
 //@ func (*Conversation).calcDHSharedSecret
@@ -1225,3 +1227,24 @@ package otr3
 //@   requires h != nil
 //@   modifies hacc(h)
 //@   ensures [C10.h.term] fresh(result) && len(result) == hlen(h) && cap(result) >= len(result) && bytes(result) == hashval(hkind(h), bs_cat(bs_cat(bs_empty(), byte1(b)), bytes(secbytes)))
+
+//@ define akeTerm(k) = hashval(2, bs_cat(bs_cat(bs_empty(), byte1(k)), secbs(nil)))
+//@ func calculateAKEKeys
+//@   requires s != nil && v != nil
+//@   pure
+//@   ghostlocal secbs(nil) = bytes(secbytes)
+//@   ensures [C10.ake.keys.ssid] bytesarrv(ssid) == bs_sub(akeTerm(0), 0, 8)
+//@   ensures [C10.ake.keys.c] bytes(revealSigKeys.c) == bs_sub(akeTerm(1), 0, 16) && bytes(signatureKeys.c) == bs_sub(akeTerm(1), 16, 32)
+//@   ensures [C10.ake.keys.m] bytes(revealSigKeys.m1) == akeTerm(2) && bytes(revealSigKeys.m2) == akeTerm(3) && bytes(signatureKeys.m1) == akeTerm(4) && bytes(signatureKeys.m2) == akeTerm(5)
+//@   ensures [C10.ake.keys.len.pkg] len(revealSigKeys.c) == 16 && len(signatureKeys.c) == 16 && len(revealSigKeys.m1) == 32 && len(revealSigKeys.m2) == 32 && len(signatureKeys.m1) == 32 && len(signatureKeys.m2) == 32
+//@   ensures nonglobal(revealSigKeys.c) && nonglobal(signatureKeys.c) && nonglobal(revealSigKeys.m1) && nonglobal(revealSigKeys.m2) && nonglobal(signatureKeys.m1) && nonglobal(signatureKeys.m2)
+
+//@ func extractWhitespaceTag
+//@   requires len(message) >= 16
+//@   modifies elems(message)
+//@ loop extractWhitespaceTag #0
+//@   invariant nonglobal(currentData)
+//@   backedge [C16.wstag.monotone,C07.wstag.monotone] (versions1 & versions) == versions
+//@   decreases len(currentData)
+
+//@ ghostfield fragNumsOK Bool
